@@ -1151,4 +1151,24 @@ theorem getNeighbours_faces_aux (L : Layout) (hx : 0 < L.mx) (hy : 0 < L.my) (hz
   rw [e1, e2, e3, e4, e5, e6]
   simp only [List.append_assoc]
 
+
+/-! ## the chained traversal as a deposit-producing step function -/
+
+section split
+variable {σ δ M : Type} [AddCommMonoid M]
+
+/-- The chained traversal (`Model/Handover.lean`, `chainStep`: `interact` cell steps, and at an exit
+`get_neighbour` / `output_to_input_direction` / re-entry) as a deposit-producing step function.  `val s dep`
+is the contribution of a deposit made in subgrid `s` to the totals `M` — e.g. the function on global cells
+that is `path·weight·σ` at the global cell of the deposit and zero elsewhere. -/
+def splitStep (L : Layout) (localStep : Nat → σ → LocalStep σ δ) (enter : Nat → Nat → σ → σ) (val : Nat → δ → M) :
+    ChainState σ → Option (M × ChainState σ) := fun x =>
+  (chainStep L localStep enter x).map fun r =>
+    ((match r.1 with
+      | some (s, dep) => val s dep
+      | none => 0), r.2)
+
+
+end split
+
 end CMacVerif.SubgridLayout
